@@ -279,9 +279,9 @@ func init() {
 		Assume: []string{"HEAD may or may not be listed for OPTIONS * (as the property grants)"},
 	})
 	Register(&Engine{
-		ID:       "C17",
-		Anchors:  []string{"tree.go:Add", "tree.go:checkMethods", "node.go:checkAmbiguous", "segment.go:Segment.IsAmbiguousPrefix", "method.go:addMethods"},
-		Cases:    histCases(4000, 240000),
+		ID:      "C17",
+		Anchors: []string{"tree.go:Add", "tree.go:checkMethods", "node.go:checkAmbiguous", "segment.go:Segment.IsAmbiguousPrefix", "method.go:addMethods"},
+		Cases:   histCases(4000, 240000),
 		Run: func(c *Ctx) {
 			if c.R.Chance(1, 5) {
 				c17SplitResidue(c)
